@@ -66,6 +66,14 @@ func init() {
 				}
 			}
 			checkPublishKeyConsistency(c, p, R, "C04.R4")
+			// R3 polls the context PublishContext continues with, which is the one the
+			// observability returned from OnPublishStart: the bundled otel observer must hand back
+			// a context that keeps the publish context's cancellation
+			if po := c.Prog(ModOtel); po != nil {
+				c.Borrow("C04.R3", func(k string) bool {
+					return strings.Contains(k, "OnPublishStart") && (strings.Contains(k, "span-parent-is-the-given-context") || strings.Contains(k, "returns-the-span-context"))
+				}, func(c2 *Ctx) { checkOtel(c2, po, "X") })
+			}
 			c.Floor("C04.R1", "claim sites", c.Stats["claim_sites"], 1)
 			c.Floor("C04.R2", "handler invocation sites", c.Stats["handler_invocation_sites"], 7)
 			c.Assume = append(c.Assume, "sync/atomic CompareAndSwap semantics; each Subscribe call allocates a fresh registration (checked under C01.R5)", "Subscribe's typing guarantees the reflective fallback only sees func kinds with 1 or 2 inputs")
@@ -110,6 +118,7 @@ func init() {
 				c.Discharge("C05.R3", "locks/none-leaked-when-a-handler-panics", "", "on the panic edge of every user-handler call, every lock taken around it is released by a deferred unlock")
 			}
 			c.Floor("C05.R1", "handler invocation sites", c.Stats["handler_invocation_sites"], 7)
+			checkRecordedHandlerType(c, p, R, "C05.R2")
 			c.Floor("C05.R2", "panic handler call sites", c.Stats["panic_handler_call_sites"], 1)
 			c.Assume = append(c.Assume, "recover() returns non-nil exactly when called directly by a deferred function during panicking (Go spec)", "panic(nil) is a *runtime.PanicNilError since Go 1.21")
 		},
@@ -138,6 +147,11 @@ func init() {
 			c.Floor("C06.R1", "Add sites", c.Stats["wg_add_sites"], 1)
 			c.Floor("C06.R2", "Done sites", c.Stats["wg_done_sites"], 1)
 			checkWaitAndShutdown(c, p, R)
+			// "every delivery to an Async handler ... runs exactly once": the dispatch loop walks
+			// a private snapshot (an aliased list shifted by a concurrent retirement delivers a
+			// registration twice or not at all)
+			c.Rule("C06.R6", "async deliveries are started from a private snapshot of the registrations")
+			checkSnapshot(c, p, R, "C06.R6")
 			c.Assume = append(c.Assume, "sync.WaitGroup semantics", "handlers return (a handler that never returns keeps Wait blocked by design)")
 		},
 	})
@@ -190,8 +204,21 @@ func init() {
 			c.Floor("C08.R3", "hook call sites", c.Stats["hook_call_sites"], 4)
 			checkHookSlotWriters(c, p, R, "C08.R3")
 			checkHandlerCtxProvenance(c, p, R)
+			// "each after-publish hook exactly once for every publish": a publish whose delivery
+			// blocks forever on a sequential lock leaked by an earlier panicking delivery never
+			// reaches its after hooks
+			c.Rule("C08.R4", "no delivery can block forever on a sequential lock that an earlier delivery leaked")
+			if c.Borrow("C08.R4", func(k string) bool { return strings.Contains(k, "sequential-lock-released") || strings.Contains(k, "sequential-unlock") }, func(c2 *Ctx) {
+				runFrames(c2, p, R, map[string]string{"C05.R3": "X"})
+				c.Stats["sequential_lock_sites"] = c2.Stats["sequential_lock_sites"]
+			}) == 0 {
+				c.Discharge("C08.R4", "dispatch-fn/sequential-lock-released", "", "every exit of the dispatch function (return, recovered panic) releases the sequential lock it took")
+			}
+			checkContextKeys(c, p, []string{PkgBus, PkgState}, "C08.R2")
 			// the bundled observability must hand back a context derived from the one it got
 			if po := c.Prog(ModOtel); po != nil {
+				nk := checkContextKeys(c, po, []string{PkgOtel}, "C08.R2")
+				c.Floor("C08.R2", "context values set by the otel observer", nk, 1)
 				c2 := NewCtx(c.Prop, c.Tier, c.Repo)
 				checkOtel(c2, po, "C08.R2")
 				for _, o := range c2.Obls {
